@@ -872,6 +872,170 @@ def shrink(drv, exe, case, pred, rounds=60):
     return cur
 
 
+# ---- T: statement shape of the VariableMap operations in the source (fail closed) -------------------------------------
+# `implProg` (Model/ScopeProg.lean) is a hand reading of setVarIdPass1.  To notice when the source moves away from that
+# reading even if no generated program hits the change, the bodies of VariableMap::{enterScope,leaveScope,addVariable} and
+# every statement of setVarIdPass1 that enters / leaves a scope, adds a variable, looks a name up, pushes / pops the
+# scopeStack, decides `globalNamespace` or skips a token (`continue`) are extracted together with the chain of guards
+# (headers of the enclosing blocks, else-chains spelled out) and compared with corpus/C08/setvarid_shape.json.  Comments and
+# white space are ignored; anything else that differs (a new call site, a changed guard) leaves T:setvarid-shape undischarged.
+
+def strip_comments(src):
+    """remove // and /* */ comments, keep string and char literals intact"""
+    out = []; i = 0; n = len(src)
+    while i < n:
+        c = src[i]
+        if c == '"' or c == "'":
+            j = i + 1
+            while j < n and src[j] != c:
+                j += 2 if src[j] == "\\" else 1
+            out.append(src[i:j + 1]); i = j + 1
+        elif src.startswith("//", i):
+            j = src.find("\n", i); j = n if j < 0 else j
+            i = j
+        elif src.startswith("/*", i):
+            j = src.find("*/", i + 2); j = n - 2 if j < 0 else j
+            out.append(" "); i = j + 2
+        else:
+            out.append(c); i += 1
+    return "".join(out)
+
+def norm_ws(s):
+    return re.sub(r"\s+", " ", s).strip()
+
+def function_body(src, signature):
+    k = src.find(signature)
+    if k < 0:
+        return None
+    i = src.find("{", k)
+    depth = 0; j = i
+    while j < len(src):
+        c = src[j]
+        if c == '"' or c == "'":
+            j += 1
+            while src[j] != c:
+                j += 2 if src[j] == "\\" else 1
+        elif c == "{":
+            depth += 1
+        elif c == "}":
+            depth -= 1
+            if depth == 0:
+                return src[i + 1:j]
+        j += 1
+    return None
+
+def statements(body, patterns):
+    """walk a function body; yield (statement-or-header text, guard chain) for every statement / block header that contains
+    one of the patterns.  guard chain = normalised headers of the enclosing blocks, an `else` header is prefixed by the
+    headers of the if-chain it continues."""
+    sites = []
+    stack = []          # full headers of open blocks
+    last_closed = {}    # depth -> full header of the block just closed (for else chains)
+    start = 0; par = 0; i = 0; n = len(body)
+    while i < n:
+        c = body[i]
+        if c == '"' or c == "'":
+            i += 1
+            while body[i] != c:
+                i += 2 if body[i] == "\\" else 1
+        elif c in "([":
+            par += 1
+        elif c in ")]":
+            par -= 1
+        elif c == "{" and par == 0:
+            h = norm_ws(body[start:i])
+            d = len(stack)
+            full = h
+            if h.startswith("else") and d in last_closed:
+                full = last_closed[d] + " ;; " + h
+            last_closed.pop(d, None)
+            if any(p in h for p in patterns):
+                sites.append((h + " {", list(stack)))
+            stack.append(full)
+            start = i + 1
+        elif c == "}" and par == 0:
+            t = norm_ws(body[start:i])
+            if t and any(p in t for p in patterns):
+                sites.append((t, list(stack)))
+            full = stack.pop() if stack else "?"
+            last_closed[len(stack)] = full
+            start = i + 1
+        elif c == ";" and par == 0:
+            t = norm_ws(body[start:i])
+            d = len(stack)
+            if not t.startswith("else"):
+                pass
+            if any(p in t for p in patterns):
+                g = list(stack)
+                if t.startswith("else") and d in last_closed:
+                    t = last_closed[d] + " ;; " + t
+                sites.append((t, g))
+            last_closed.pop(d, None)
+            start = i + 1
+        i += 1
+    return sites
+
+SHAPE_PATTERNS = ["variableMap.enterScope(", "variableMap.leaveScope(", "variableMap.addVariable(", "variableMap.map(globalNamespace).find(",
+                  "tok->varId(it->second.id)", "scopeStack.emplace(", "scopeStack.pop(", "globalNamespace = ", "continue",
+                  "functionDeclEndStack.p", "initlist = ", "inlineFunction = "]
+
+def extract_shape(path):
+    src = strip_comments(open(path, encoding="utf-8", errors="replace").read())
+    shape = {"methods": {}, "sites": []}
+    for name, sig in (("enterScope", "void VariableMap::enterScope()"), ("leaveScope", "bool VariableMap::leaveScope()"),
+                      ("addVariable", "void VariableMap::addVariable(const std::string& varname, bool globalNamespace)")):
+        b = function_body(src, sig)
+        shape["methods"][name] = None if b is None else norm_ws(b)
+    b = function_body(src, "void Tokenizer::setVarIdPass1()")
+    if b is not None:
+        for t, g in statements(b, SHAPE_PATTERNS):
+            shape["sites"].append({"stmt": t, "guards": g})
+    else:
+        shape["sites"] = None
+    return shape
+
+
+
+SHAPE_FILE = os.path.join(core.VERIF, "corpus", "C08", "setvarid_shape.json")
+
+
+def check_shape(ctx, res):
+    cur = extract_shape(os.path.join(core.REPO, "lib", "tokenize.cpp"))
+    if not os.path.exists(SHAPE_FILE):
+        res.oblig("T:setvarid-shape", False, "translation", "expected shape file missing: " + SHAPE_FILE)
+        return False
+    exp = json.load(open(SHAPE_FILE))
+    diffs = []
+    for m in ("enterScope", "leaveScope", "addVariable"):
+        if cur["methods"].get(m) is None:
+            diffs.append("VariableMap::%s not found (unrecognised shape)" % m)
+        elif cur["methods"][m] != exp["methods"].get(m):
+            diffs.append("body of VariableMap::%s changed: now `%s`" % (m, cur["methods"][m][:400]))
+    if cur["sites"] is None:
+        diffs.append("Tokenizer::setVarIdPass1 not found (unrecognised shape)")
+    else:
+        es = [(e["stmt"], e["guards"]) for e in exp["sites"]]
+        cs = [(e["stmt"], e["guards"]) for e in cur["sites"]]
+        if es != cs:
+            only_c = [x for x in cs if x not in es]
+            only_e = [x for x in es if x not in cs]
+            diffs.append("setVarIdPass1: %d statement(s) with guards only in the source, %d only in the expected reading (or order changed); "
+                         "source: %s | expected: %s" % (len(only_c), len(only_e), only_c[:2], only_e[:2]))
+    res.extra["setvarid_sites"] = len(cur["sites"] or [])
+    res.oblig("T:setvarid-shape", not diffs, "translation", "\n".join(diffs))
+    return not diffs
+
+
+def write_expected_shape():
+    """regenerate corpus/C08/setvarid_shape.json from the current source (only after re-reading the code against implProg)"""
+    cur = extract_shape(os.path.join(core.REPO, "lib", "tokenize.cpp"))
+    old = json.load(open(SHAPE_FILE)) if os.path.exists(SHAPE_FILE) else {"sites": []}
+    notes = dict(((e["stmt"], tuple(e["guards"])), e.get("model")) for e in old.get("sites", []))
+    for e in cur["sites"]:
+        e["model"] = notes.get((e["stmt"], tuple(e["guards"])))
+    json.dump(cur, open(SHAPE_FILE, "w"), indent=1)
+
+
 # ---- clang as oracle for the specification ----------------------------------------------------------------
 
 def clang_batch(ctx, cases, cpp, tag):
@@ -996,6 +1160,7 @@ def run(ctx, res):
     rng = ctx.rng
     thorough = ctx.tier == "thorough"
     core.prove(ctx, res, MODULES, THEOREMS)
+    check_shape(ctx, res)
     drv = ctx.driver("drv_c08")
     exe = harness_exe(ctx)
     corpus = load_corpus()
